@@ -54,7 +54,7 @@ impl Prop for C05 {
         true
     }
     fn rule(&self) -> String {
-        "cases = C03-style conversations where every request (incl. the handshake response) carries a generated start sequence id (0 / 1 mostly, else uniform 0-255, with 254/255 favoured) and some programs produce 256-1100 response packets (hundreds of rows, or a 300-1000 column header; enumerated: 65536 and more rows); 1 conversation in 1500 contains a row of 17-70 MB laid out against the packet boundaries (cells of 1x, 2x, 3x the packet size, several of them per row, small cells in between), in either protocol; enumerated multi-fragment (>= 2^24-1 byte) requests so that the *last* request id matters; 1 conversation in 20 is upgraded to TLS first (SSL request with the id below the handshake response's, or any id; a rustls client; one third of them with a shim that then refuses the client), and the ids of the decrypted server packets are checked the same way. Oracle: greeting id 0; every reply's packets are last_request_id+1+i mod 256. Non-trivial = some response has > 255 packets, or some request id != 0, or a multi-fragment request, or a response message of 2^24-1 bytes or more (enumerated: a 16 MiB cell between ordinary rows, request ids 0 and 250).".into()
+        "cases = C03-style conversations where every request (incl. the handshake response) carries a generated start sequence id (0 / 1 mostly, else uniform 0-255, with 254/255 favoured) and some programs produce 256-1100 response packets (hundreds of rows, or a 300-1000 column header; enumerated: 65536 and more rows); 1 conversation in 1500 contains a row of 17-70 MB laid out against the packet boundaries (cells of 1x, 2x, 3x the packet size, several of them per row, small cells in between), in either protocol; enumerated multi-fragment (>= 2^24-1 byte) requests so that the *last* request id matters, one of them a 70 MB query (beyond the advertised max_allowed_packet: the reply may be an error about the size, its ids are checked all the same); 1 conversation in 20 is upgraded to TLS first (SSL request with the id below the handshake response's, or any id; a rustls client; one third of them with a shim that then refuses the client), and the ids of the decrypted server packets are checked the same way. Oracle: greeting id 0; every reply's packets are last_request_id+1+i mod 256. Non-trivial = some response has > 255 packets, or some request id != 0, or a multi-fragment request, or a response message of 2^24-1 bytes or more (enumerated: a 16 MiB cell between ordinary rows, request ids 0 and 250).".into()
     }
     fn assumptions(&self) -> Vec<String> {
         vec!["requests whose own fragments would wrap past id 255 are outside the domain (C20 covers them)".into()]
@@ -163,6 +163,21 @@ impl Prop for C05 {
                 conv.sched = crate::transport::Schedule::fixed(1 << 22);
                 v.push(Case { conv, over_tls: None });
             }
+        }
+        // a request beyond the 64 MiB the server advertises as max_allowed_packet (five fragments):
+        // whatever the server answers - the shim's reply, or an error of its own about the size -
+        // is numbered after the request's last fragment
+        for &seq in &[0u8, 250] {
+            if tier == Tier::Quick && seq != 0 {
+                continue;
+            }
+            let mut conv = Conversation::new(
+                vec![Cmd::Ping, Cmd::Query { text: Blob::Text { seed: 61, len: 70_000_003 } }, Cmd::Ping, Cmd::Query { text: Blob::text("small") }],
+                vec![Action::Result(Program::completed(5, 6)), Action::Result(Program::completed(1, 1))],
+            );
+            conv.cmds[1].seq = seq;
+            conv.sched = crate::transport::Schedule::fixed(1 << 22);
+            v.push(Case { conv, over_tls: None });
         }
         // responses of more than 2^16 packets (the 8-bit id wraps hundreds of times)
         for (i, &n) in [65_533usize, 65_536, 66_000].iter().enumerate() {
